@@ -1,8 +1,15 @@
 /-
 Proofs/Wire — helper lemmas for C07 / C18 (wire round trips, symbol tables).
+
+The lemmas live in three files: `Proofs/WireRoundtrip` (protobuf layer, names `wire_*`),
+`Proofs/SymbolsLemmas` (interning / resolution, names `sym_*`) and `Proofs/Snapshot`
+(string-level save / load, names `snap_*`).
 -/
 import BiscuitModel.Model.Symbols
 import BiscuitModel.Spec.WireWF
+import BiscuitModel.Proofs.WireRoundtrip
+import BiscuitModel.Proofs.SymbolsLemmas
+import BiscuitModel.Proofs.Snapshot
 
 namespace Biscuit
 
